@@ -147,8 +147,7 @@ theorem simEnv_isSome {secs : List Section} {env : Env} (h : SimEnv secs env) (n
 def symDefList (i : MemInput) : List String := (inputSymDef i).toList
 
 theorem layoutInput_sim {base : Nat} {st : LState} {pst pst' : PState} {i : MemInput} {G D : List String}
-    (inv : LInv base st) (sim : LSim base st pst) (tab : Tab st.syms G D)
-    (hfresh : ∀ n ∈ inputPlaced i, n ∉ st.placed) (hp : placeInput pst i = some pst') :
+    (sim : LSim base st pst) (tab : Tab st.syms G D) (hp : placeInput pst i = some pst') :
     (¬ Fresh D (symDefList i) → layoutInput st i = .error .CompilerError) ∧
     (Fresh D (symDefList i) → ∃ st', layoutInput st i = .ok st' ∧ LSim base st' pst' ∧
       Tab st'.syms (G ++ symDefList i) (D ++ symDefList i)) := by
@@ -205,7 +204,7 @@ theorem layoutInput_sim {base : Nat} {st : LState} {pst pst' : PState} {i : MemI
           rw [this, sim.env m]
       · simp only [sim.cur]
       · simp only
-        rw [resolve_push hget hframe (hfresh n (by simp [inputPlaced])), chainEnd_append_one, sim.cur]
+        rw [resolve_append, resolve_single hget, chainEnd_append_one, sim.cur]
         rfl
   | sectData n =>
     have hF : Fresh D (symDefList (.sectData n)) := ⟨by simp [symDefList, inputSymDef], by simp [symDefList, inputSymDef]⟩
@@ -243,8 +242,6 @@ theorem layoutInput_sim {base : Nat} {st : LState} {pst pst' : PState} {i : MemI
             intro m hm
             have : ¬ dollarName n = m := fun e => hm e.symm
             rw [getSec_append_one]; simp [this]
-          have hfr : dollarName n ∉ st.placed := fun hm => by
-            have := inv.present _ hm; rw [hnone'] at this; cases this
           refine ⟨LState.mk (st.secs ++ [{ name := dollarName n, address := st.cur, alignment := 1, data := src.data }])
               st.syms (st.cur + src.data.length) (st.placed ++ [dollarName n]),
             by simp only [layoutInput, hnone, Bool.false_eq_true, if_false, hg], ⟨?_, ?_, ?_⟩,
@@ -253,7 +250,7 @@ theorem layoutInput_sim {base : Nat} {st : LState} {pst pst' : PState} {i : MemI
             exact this
           · simp only [sim.cur]
           · simp only
-            rw [resolve_push hget hframe hfr, chainEnd_append_one, sim.cur]
+            rw [resolve_append, resolve_single hget, chainEnd_append_one, sim.cur]
   | symDef sname =>
     simp only [placeInput] at hp
     split at hp
@@ -274,8 +271,6 @@ theorem layoutInput_sim {base : Nat} {st : LState} {pst pst' : PState} {i : MemI
         intro m hm
         have : ¬ dollarName sname = m := fun e => hm e.symm
         rw [getSec_append_one]; simp [this]
-      have hfr : dollarName sname ∉ st.placed := fun hm => by
-        have := inv.present _ hm; rw [hnone'] at this; cases this
       have ⟨r1, r2⟩ := mergeGlobal_run tab sname (some (dollarName sname)) (some 0) "object" 0
       have hFiff : Fresh D (symDefList (.symDef sname)) ↔ ¬ ((some 0 : Option Nat).isSome = true ∧ sname ∈ D) := by
         simp [Fresh, symDefList, inputSymDef]
@@ -296,7 +291,7 @@ theorem layoutInput_sim {base : Nat} {st : LState} {pst pst' : PState} {i : MemI
           simpa using this
         · simp only [sim.cur]
         · simp only
-          rw [resolve_push hget hframe hfr, chainEnd_append_one, sim.cur]
+          rw [resolve_append, resolve_single hget, chainEnd_append_one, sim.cur]
           rfl
   | align a =>
     have hF : Fresh D (symDefList (.align a)) := ⟨by simp [symDefList, inputSymDef], by simp [symDefList, inputSymDef]⟩
@@ -350,7 +345,7 @@ theorem layoutInputs_sim : ∀ {inputs : List MemInput} {base : Nat} {st : LStat
     have hfresh : ∀ n ∈ inputPlaced i, n ∉ st.placed := by
       intro n hn hpl
       exact (List.nodup_append.1 hnd).2.2 n hpl n (List.mem_append_left _ hn) rfl
-    have ⟨r1, r2⟩ := layoutInput_sim inv sim tab hfresh hp1
+    have ⟨r1, r2⟩ := layoutInput_sim sim tab hp1
     rw [filterMap_symDef_cons]
     unfold layoutInputs
     by_cases hf1 : Fresh D (symDefList i)
